@@ -8,8 +8,9 @@ PROPS = {
                    'c01::h_token_strings': ['long-version', 'has-revision']},
     },
     'C02': {
-        'harnesses': ['c02::h_compile', 'c02::h_match'],
-        'covers': {'c02::h_compile': ['accepted', 'rejected'], 'c02::h_match': ['match', 'two-bounds']},
+        'harnesses': ['c02::h_compile', 'c02::h_match', 'c02::h_base_bytes'],
+        'covers': {'c02::h_compile': ['accepted', 'rejected'], 'c02::h_match': ['match', 'two-bounds'],
+                   'c02::h_base_bytes': ['same-base', 'matched']},
     },
     'C03': {
         'kani': True,
@@ -27,9 +28,10 @@ PROPS = {
     },
     'C05': {
         'assumptions': ['glob::Pattern::{new,matches} (glob 0.3.1, default MatchOptions) is a Python transcription (stub of a dependency); every sampled path witness is re-run against the real crate'],
-        'harnesses': ['c05::h_inert', 'c05::h_glob'],
+        'harnesses': ['c05::h_inert', 'c05::h_glob', 'c05::h_glob_special'],
         'covers': {'c05::h_inert': ['matched', 'kind-alt', 'kind-dewey', 'kind-glob', 'kind-simple'],
-                   'c05::h_glob': ['malformed', 'glob-matched', 'plain-matched']},
+                   'c05::h_glob': ['malformed', 'glob-matched', 'plain-matched'],
+                   'c05::h_glob_special': ['special-matched', 'special-rejected']},
     },
     'C06': {
         'harnesses': ['c06::h_pair', 'c06::h_triple'],
